@@ -127,3 +127,87 @@ func (t *Tracer) OriginsVia(e EffSite, v ssa.Value, path []string) *Origin {
 	st.trace(v, path, c)
 	return st.o
 }
+
+// ToRoot rewrites a value of the function containing e.Site into the root function's terms: parameters of the helpers
+// on the chain are replaced by the arguments passed down (ssafab.go). A parameter handed through unchanged becomes the
+// caller's own SSA value, so identity tests ("the value stored IS result #1 of that call") keep working across a
+// helper boundary.
+func (e EffSite) ToRoot(v ssa.Value) ssa.Value {
+	for i := len(e.Chain) - 1; i >= 0; i-- {
+		c := e.Chain[i]
+		call, ok := c.Instr.(*ssa.Call)
+		var bind map[*ssa.Parameter]ssa.Value
+		if ok {
+			bind = bindParams(c.Static, call)
+		} else {
+			bind = map[*ssa.Parameter]ssa.Value{}
+			for j, p := range c.Static.Params {
+				if j < len(c.Common().Args) {
+					bind[p] = c.Common().Args[j]
+				}
+			}
+		}
+		v = translateValue(v, bind, 0)
+	}
+	return v
+}
+
+// RootArgs: the site's arguments (receiver excluded) in the root function's terms.
+func (e EffSite) RootArgs() []ssa.Value {
+	a := e.Site.Args()
+	out := make([]ssa.Value, len(a))
+	for i, v := range a {
+		out[i] = e.ToRoot(v)
+	}
+	return out
+}
+
+// StoreBelow is a field store found in a function or in one of the helpers it calls.
+type StoreBelow struct {
+	FS    FieldStore
+	Chain []*Site
+	Val   ssa.Value // the stored value in the root function's terms
+	Base  ssa.Value // the struct pointer stored through, in the root function's terms
+}
+
+// Top: the instruction of the root function through which the store is reached (the store itself when it is there).
+func (s StoreBelow) Top() ssa.Instruction {
+	if len(s.Chain) > 0 {
+		return s.Chain[0].Instr
+	}
+	return s.FS.Store
+}
+
+// storesBelow enumerates the stores to fields of the named struct type in root and in the static module helpers it
+// calls (maxDepth levels); `stop` names callees that are not entered.
+func (w *World) storesBelow(root *ssa.Function, structName string, maxDepth int, stop func(*Site) bool) []StoreBelow {
+	cg := w.CG()
+	var out []StoreBelow
+	var walk func(fn *ssa.Function, chain []*Site, onPath map[*ssa.Function]bool)
+	walk = func(fn *ssa.Function, chain []*Site, onPath map[*ssa.Function]bool) {
+		e := EffSite{Chain: chain}
+		for _, fs := range FieldStores(fn) {
+			if fs.Struct == nil || fs.Struct.Obj().Name() != structName {
+				continue
+			}
+			out = append(out, StoreBelow{FS: fs, Chain: append([]*Site(nil), chain...), Val: e.ToRoot(fs.Store.Val), Base: e.ToRoot(fs.FA.X)})
+		}
+		if len(chain) >= maxDepth {
+			return
+		}
+		for _, s := range cg.Sites[fn] {
+			if s.Static == nil || s.Invoke || (stop != nil && stop(s)) {
+				continue
+			}
+			h := s.Static
+			if h.Blocks == nil || onPath[h] || !w.isProdFunc(h) || isGeneratedFile(w.FileOf(h.Pos())) {
+				continue
+			}
+			onPath[h] = true
+			walk(h, append(chain, s), onPath)
+			delete(onPath, h)
+		}
+	}
+	walk(root, nil, map[*ssa.Function]bool{root: true})
+	return out
+}
